@@ -13,7 +13,7 @@ from common import Cvec, Cx, R, Rmat, Rvec, cfl, fl, flmat, max_rel_err
 
 from common import wiring_pre_build as pre_build  # noqa: E402,F401
 
-LEAN_MODULES = ["PyomaVerif.Props.C17", "PyomaVerif.Props.C17Jac", "PyomaVerif.Props.C17Vec", "PyomaVerif.Mutants.C17", "PyomaVerif.Mutants.C17Vec", "PyomaVerif.Props.WiringRun", "PyomaVerif.Props.WiringCalls"]
+LEAN_MODULES = ["PyomaVerif.Props.C17", "PyomaVerif.Props.C17Jac", "PyomaVerif.Props.C17Vec", "PyomaVerif.Mutants.C17", "PyomaVerif.Mutants.C17Vec", "PyomaVerif.Props.WiringRun", "PyomaVerif.Props.WiringCalls", "PyomaVerif.Props.C17Table"]
 THEOREMS = [
     # the exact sequence of core-routine calls of the run()/mpe() body and the exact set of parameters bound at each (regenerated call table)
     "PV.WiringCalls.C12_ssidat_run_calls",
@@ -74,6 +74,12 @@ THEOREMS = [
     "PV.Mutants.C17.vomOld_not_singular_vector",
     "PV.Mutants.C17.blockOld_mean_fails",
     "PV.Mutants.C17.scale_mutant_fails",
+    # Fn_cov / Xi_cov table assembly: cell (jj, ii) = |poleVar| of the jj-th eigen-triple of the pass of order ii (Model/Poles.lean ssiPoles; stream ssi.SSI_poles[cov values] in c01.py)
+    "PV.Poles.ssiPoles_spec",
+    "PV.C17Table.var00_ufxAt",
+    "PV.C17Table.C17_fncov_cell",
+    "PV.C17Table.ex_ok",
+    "PV.C17Table.ex_cell",
 ]
 RULE = (
     "correspondence: build_hank(cov_mm, calc_unc=True) on small-integer / float records (1..3 channels, reference subset, "
